@@ -22,6 +22,8 @@ package common
 
 //@ poolinv TLSConn.writeBufPool: typeIs[*[]byte](x) && x.(*[]byte) != nil && len(*(x.(*[]byte))) == 3 && (*(x.(*[]byte)))[0] == 23 && (*(x.(*[]byte)))[1] == 3 && (*(x.(*[]byte)))[2] == 3
 
+//@ func NewTLSConn
+//@   ensures fresh(ret0) && ret0.Conn == conn
 //@ func NewTLSConn$1
 //@   ensures typeIs[*[]byte](ret0) && ret0.(*[]byte) != nil && len(*(ret0.(*[]byte))) == 3 && (*(ret0.(*[]byte)))[0] == 23 && (*(ret0.(*[]byte)))[1] == 3 && (*(ret0.(*[]byte)))[2] == 3
 
